@@ -174,7 +174,7 @@ def decode(res, d):
     return np.asarray(res.pixels[:d], dtype=float) - OFF
 
 
-def judge(ctx, src, res, T, W, b, half, op, opts, tol, smooth=False, margin=0.0, rmargin=0, only=None, mask_band=1.01, Tknown=None):
+def judge(ctx, src, res, T, W, b, half, op, opts, tol, smooth=False, margin=0.0, rmargin=0, only=None, mask_band=1.01, Tknown=None, ltol=None):
     """All oracles for one (source, result[, returned transform]) pair.  Returns number of judged landmarks."""
     import menpo.image as mi
     cls = type(src).__name__
@@ -303,7 +303,7 @@ def judge(ctx, src, res, T, W, b, half, op, opts, tol, smooth=False, margin=0.0,
             if cls == "BooleanImage":
                 judged += len(back)
                 ctx.tap("decode_at_landmarks", "calls"); ctx.tap("decode_at_landmarks", "checked")
-            if not (e <= max(tol, 1e-6)) and not ok:
+            if not (e <= max(tol if ltol is None else ltol, 1e-6)) and not ok:
                 ctx.fail("returned_transform_does_not_map_result_landmarks_to_source_landmarks", cls=cls, mech=mech, err=e, options=opts)
     return judged
 
@@ -341,6 +341,9 @@ def w_ops(ctx, rng, i):
     base = 30 if d == 2 else 13
     if op in ("pyramid", "gaussian_pyramid"):
         base = 60 if d == 2 else 26
+    many_ctrl = op == "warp_tps" and (i // 360) % 3 == 1
+    if many_ctrl:
+        base = 90
     shp = tuple(int(v) for v in rng.integers(base - 8, base + 12, d))
     src, W, b, half = make_image(rng, cls, shp, int(rng.integers(0, 5 - d)) if d == 2 else int(rng.integers(0, 2)), dtype)
     tol = 1e-6 if dtype != np.float32 else 2e-3
@@ -477,6 +480,11 @@ def w_ops(ctx, rng, i):
                 dd = np.sqrt(((P[:, None] - P[None]) ** 2).sum(-1)) + np.eye(len(P)) * 99
                 if dd.min() > 5.0:
                     break
+            if many_ctrl:
+                # an annotation scheme with dozens of points (a 68-point face): a jittered grid over the middle of the image
+                k = int(rng.integers(5, 9))
+                gy, gx = np.meshgrid(np.linspace(0.2, 0.8, k), np.linspace(0.2, 0.8, k), indexing="ij")
+                P = np.stack([gy.ravel() * S[0], gx.ravel() * S[1]], axis=1) + rng.uniform(-1.0, 1.0, (k * k, 2))
             src.landmarks["g0"] = ms.PointCloud(P)
             lmc = ["PointCloud"]
         tshape = tuple(int(v) for v in rng.integers(base - 10, base + 6, d))
@@ -557,7 +565,10 @@ def w_ops(ctx, rng, i):
     for lv, (res, T) in enumerate(results):
         # nearest-neighbour mask sampling loses up to half a pixel of each level's own grid
         band = 1.01 + (opts["downscale"] ** (lv + 1) if op in ("pyramid", "gaussian_pyramid") else 0.0)
-        judged += judge(ctx, src, res, T, W, b, half, op, opts, tol, smooth=smooth, margin=margin, rmargin=rmargin, only=only, mask_band=band, Tknown=Tknown)
+        # interpolating warps and their reverse fits are exact at / between the control points: the landmark clause keeps a
+        # tight bound of its own (the loose `tol` of smooth warps is for decoding pixel values only)
+        judged += judge(ctx, src, res, T, W, b, half, op, opts, tol, smooth=smooth, margin=margin, rmargin=rmargin, only=only, mask_band=band, Tknown=Tknown,
+                        ltol=1e-5 if op in ("warp_tps", "warp_pwa") else None)
     # the op with and without return_transform gives the same image (spot check)
     ctx.see("ops", (cls, d, op))
     ctx.count_case((cls, d, np.dtype(dtype).name, op, str(sorted(opts.items())), tuple(sorted(set(lmc))), rt),
@@ -615,7 +626,7 @@ def w_reuse(ctx, rng, i):
         src.landmarks["g0"] = ms.PointCloud(P.copy())
         bsz = [None, None, 11, 400][rng.integers(0, 4)]
         res, T = call(src.warp_to_shape, bool(rng.random() < 0.5), tshape, t, warp_landmarks=True, **({} if bsz is None else {"batch_size": bsz}))
-        judged += judge(ctx, src, res, T, W, b, half, "reuse_" + kind, {"step": min(step, 2)}, tol, smooth=(kind != "affine"), Tknown=t)
+        judged += judge(ctx, src, res, T, W, b, half, "reuse_" + kind, {"step": min(step, 2)}, tol, smooth=(kind != "affine"), Tknown=t, ltol=1e-5)
     ctx.count_case((cls, "reuse", kind, n_steps), nontrivial=judged >= 3, sample={"cls": cls, "kind": kind, "steps": n_steps} if i < 2 else None)
 
 
